@@ -212,6 +212,8 @@ class Session:
         self.ctx = ctx
         self.cfg = ctx.config
         self.table = specs.make_table(self.cfg)
+        # a column of numbers that need all their digits (ratios, logarithms): no model reads it, data dumps hold it
+        self.table['ratio'] = [math.log(2.0 + i) / 7.0 for i in range(len(self.table))]
         self.results = []   # dicts: obj, model, instant
         self.pickles = []   # dicts: file, snap, instant, model, seq
         self.planted = set()
@@ -418,7 +420,7 @@ class Session:
             if ok:
                 self._fresh(fn, pre, 'dump_on_file')
                 import pandas as pd
-                back = pd.read_csv(fn, sep='\t', index_col='__rowId')
+                back = pd.read_csv(fn, sep='\t', index_col='__rowId', float_precision='round_trip')
                 if list(back.columns) != list(self.table.columns) or not np.array_equal(
                         back.to_numpy(dtype=float), self.table.to_numpy(dtype=float)):
                     ctx.fail('I14.3d', f'{fn} does not read back as the dumped table')
